@@ -186,7 +186,8 @@ func (x *Exec) monitorInvariant(st *State, mi *monitorInfo, ref *Term) *Term {
 }
 
 func (x *Exec) monitorHavoc(st *State, mi *monitorInfo, ref *Term) {
-	for name, r := range mi.fields {
+	for _, name := range sortedFieldNames(mi.fields) {
+		r := mi.fields[name]
 		ft, off := x.findField(mi.sT, name)
 		a := &Addr{K: AHeap, Key: typeKey(mi.sT), Ref: ref, Off: off, T: ft, contT: mi.sT}
 		_ = r
@@ -252,8 +253,12 @@ func (x *Exec) intrinsic(st *State, fr *Frame, site ssa.Instruction, fn *ssa.Fun
 		x.condOp(st, fr, args[0], "wait", where)
 		k(st, Val{})
 		return true
-	case "(*sync.Cond).Signal", "(*sync.Cond).Broadcast":
+	case "(*sync.Cond).Signal":
 		x.condOp(st, fr, args[0], "signal", where)
+		k(st, Val{})
+		return true
+	case "(*sync.Cond).Broadcast":
+		x.condOp(st, fr, args[0], "broadcast", where)
 		k(st, Val{})
 		return true
 	case "sync.NewCond":
@@ -292,8 +297,11 @@ func (x *Exec) condOp(st *State, fr *Frame, recv Val, op string, where string) {
 	if mi == nil {
 		return
 	}
-	if op == "signal" {
+	if op == "signal" || op == "broadcast" {
 		st.ghost["signalled!"+fname] = TrueT
+		if op == "broadcast" {
+			st.ghost["broadcast!"+fname] = TrueT // every waiter is woken, not just one
+		}
 		return
 	}
 	key := heldKey + mi.m.Type + "." + mi.m.Mutex
@@ -318,7 +326,7 @@ func (x *Exec) monitorPred(env *Env, name string, args []*SExpr) Val {
 			field = a.Name
 		}
 	}
-	if env.ghostScope != nil && (name == "signalled" || name == "waited") {
+	if env.ghostScope != nil && (name == "signalled" || name == "waited" || name == "broadcast") {
 		k := name + "!" + field
 		t, ok := env.ghostScope[k]
 		if !ok {
@@ -332,6 +340,8 @@ func (x *Exec) monitorPred(env *Env, name string, args []*SExpr) Val {
 		return mathVal(x.ghostBool(env.st, "signalled!"+field))
 	case "waited":
 		return mathVal(x.ghostBool(env.st, "waited!"+field))
+	case "broadcast":
+		return mathVal(x.ghostBool(env.st, "broadcast!"+field))
 	case "held":
 		for k, v := range env.st.ghost {
 			if strings.HasPrefix(k, heldKey) && strings.HasSuffix(k, "."+field) {
@@ -353,7 +363,8 @@ func (x *Exec) checkLock(st *State, fr *Frame, a *Addr, where string) {
 		return
 	}
 	n := x.tc.nleaves(a.T)
-	for name, r := range mi.fields {
+	for _, name := range sortedFieldNames(mi.fields) {
+		r := mi.fields[name]
 		if a.Off < r[1] && a.Off+n > r[0] {
 			// constructors touching a fresh object are exempt
 			fresh := Ge(a.Ref, Var("brk@0", IntS))
@@ -698,7 +709,7 @@ func (x *Exec) next(st *State, fr *Frame, v *ssa.Next) {
 	it := x.reg(st, fr, v.Iter)
 	rng := it.Fn.(*ssa.Range)
 	src := it.Bindings[0]
-	key := fmt.Sprintf("iter!%p", rng)
+	key := iterKey(rng)
 	pos := st.ghost[key]
 	tup := v.Type().(*types.Tuple)
 	if v.IsString {
@@ -849,4 +860,22 @@ func (E *Engine) siteOrdinal(fn *ssa.Function, site ssa.Instruction, callee stri
 type siteInfo struct {
 	name string
 	ord  int
+}
+
+// iterKey: the ghost key of a range iterator, named after its function and SSA register (deterministic across runs)
+func iterKey(v *ssa.Range) string {
+	fn := ""
+	if v.Parent() != nil {
+		fn = v.Parent().Name()
+	}
+	return "iter!" + fn + "." + v.Name()
+}
+
+func sortedFieldNames[T any](m map[string]T) []string {
+	ks := make([]string, 0, len(m))
+	for k := range m {
+		ks = append(ks, k)
+	}
+	sort.Strings(ks)
+	return ks
 }
